@@ -87,6 +87,10 @@ def stress_plan(variants, thorough):
     for v in variants:
         scale = 4 if v == "sim" else 1
         plan.append((v, "counter", [n, it // scale]))
+        if thorough and v != "sim":
+            # three or more threads inside lock at once (two spinning while one holds): hand-off defects need it
+            plan.append((v, "counter", [3, it // scale]))
+            plan.append((v, "counter", [16, it // (4 * scale)]))
     plan.append(("c11", "mcounter", [n, it // 4]))          # the posix mutex itself
     return plan
 
@@ -134,7 +138,8 @@ def run(chk):
                                          "scripted": "all (op, code)^2 after every init code"}
     need_search = (not (proof_ok and driver_ok)) or corr is not None or thm is not None
     if thorough or (need_search and not found):
-        found = ac.stress_campaign(chk, cfg, "C01", stress_plan(["c11", "sync", "sim"], thorough), 240 if thorough else 60,
+        # a broken proof leaves the search as the only source of a concrete input: it gets the thorough plan
+        found = ac.stress_campaign(chk, cfg, "C01", stress_plan(["c11", "sync", "sim"], thorough or need_search), 240 if thorough else 90,
                                    "supporting run" if not need_search else "failing-input search") or found
     if not proof_ok:
         chk.cov["broken_theorems"] = ac.name_broken_theorems(detail)
